@@ -51,4 +51,10 @@ JSignBuild(e) ==
        LET d == RefEncryptedLeaseSet(r.ser) IN
        d.ok /\ d.consumed = Len(r.ser) /\ d.st = e.st /\ d.innerLen = m.innerlen /\ d.flags = m.flags /\ d.off = m.off
        /\ Slice(r.ser, d.hdrOff, 4) = m.published /\ U16(r.ser, d.hdrOff + 4) = m.expires, cls) >>
+\* ConcurrentSign: the constructor called by several goroutines at once, each around its own fresh keys; what holds for the structure
+\* built sequentially (judged by JSignBuild on its own event) has to hold for every one of them
+JConcurrentSign(e) ==
+  LET r == e.r  cls == e.fn \o "/concurrent/st=" \o ToString(e.st) \o "/n" \o ToString(e.n) IN
+  << R("C06", "probe_set_up", TRUE, r.setup /\ r.seq_good, cls),
+     R("C06", "structures_built_concurrently_verify", r.setup /\ r.seq_good, r.nfail = 0 /\ r.panics = 0, cls) >>
 =============================================================================
